@@ -50,6 +50,7 @@ class C17Check:
         "ThreadPoolExecutor used by shutdown(wait=False) is a behavioural model (lazy workers, FIFO, callbacks in completing thread)",
         "process table / psutil / clock are simulated: SIGTERM takes term_delay, SIGKILL is immediate, a naturally exiting parent takes its helpers with it, a killed parent orphans them",
         "a correct shutdown needs at most GRACE=1.0 simulated seconds after it returned for racing job threads to notice it",
+        "fair workloads only: a job that hangs without a time limit is generated only if a shutdown is certain to be requested (unconditional shutdown client, or 'callback' mode where the first job completing in any way - result, time limit, spawn error - requests it)",
     ]
     components = {
         "real": ["halmos.processes (all of it)", "halmos.solve.solve_low_level, dump, SolverOutput.from_result",
@@ -106,8 +107,11 @@ class C17Check:
         for jb in jobs:
             if jb["dur"] == INF and jb["timeout"] is None and not forced_shutdown:
                 jb["timeout"] = 10.0
-        if shut_kind == "callback" and all(jb["dur"] == INF and jb["timeout"] is None for jb in jobs):
-            jobs[0]["dur"] = 0.3  # somebody has to complete for the callback to fire
+        # "callback": the shutdown is requested by the first job that completes in any way (result, time
+        # limit, spawn error), so at least one job has to complete without being cancelled
+        if shut_kind == "callback" and all(jb["dur"] == INF and jb["timeout"] is None and not jb["spawn_err"]
+                                           for jb in jobs):
+            jobs[0]["dur"] = 0.3
 
         shape = repr((n_jobs, shut_kind, shut_delay, late_submit,
                       [(jb["mode"], jb["timeout"], jb["dur"], jb["reply"], jb["delay"], len(jb["children"]),
@@ -206,6 +210,10 @@ class C17Check:
                         out["submit"] = "accepted"
                         out["raised"] = type(e).__name__
                         out["returned"] = True
+                        # the job has completed (with an exception): in "callback" mode that completion is
+                        # what requests the shutdown, exactly as the done-callback of a direct job does
+                        if shut_kind == "callback" and st["shutdown_started_at"] is None:
+                            do_shutdown("nowait")
                         return
                     out["submit"] = "accepted"
                     out["accepted_after_shutdown_returned"] = submitted_before
